@@ -67,9 +67,11 @@ type Sched struct {
 	Pick func(step int, runnable []int, last int) int
 	// MaxSteps caps the run.
 	MaxSteps int
-	Steps    int
-	Trace    []int // chosen task per step
-	Capped   bool
+	// OnStep runs on the scheduler goroutine after every step, while all tasks are parked.
+	OnStep func(step int, ran int)
+	Steps  int
+	Trace  []int // chosen task per step
+	Capped bool
 }
 
 func New() *Sched { return &Sched{MaxSteps: 200000} }
@@ -190,6 +192,9 @@ func (s *Sched) Run() {
 		s.setRunning(t)
 		signal(&t.word)
 		waitFor(&s.word)
+		if s.OnStep != nil {
+			s.OnStep(s.Steps, next)
+		}
 	}
 	s.wg.Wait() // real happens-before edge: task results may now be read
 	runtime.KeepAlive(s)
